@@ -97,6 +97,8 @@ def plan(tier, seed):
             K4="12^4 over a 12-combination sub-alphabet (every lane count), gaps{1,2}, orders asc/desc",
         )
     shards += [("long", g, inter) for g in (1, 2, 100) for inter in ("none", "between", "inside")]
+    shards += [("big", lo) for lo in range(0, 28, 2)]
+    bounds["big"] = "one section of 30 000 ticks in a chart of 1.2*10^6 characters, padding sweep 0..27"
     bounds["long"] = "sections of 128, 256, 640 (and once 5120) ticks walking through all 32 combinations x 4 flag sets, under 4 tempo / resolution environments and tick offsets up to 2^63"
     return dict(shards=shards, bounds=bounds, budget_s=900 if tier == "thorough" else 240)
 
@@ -133,6 +135,24 @@ def check(ctx, ticks, combos, flags, order, inter, env=0, sustain=0):
 
 def run_shard(shard, ctx):
     kind = shard[0]
+    if kind == "big":
+        # a section of 30 000 ticks in a chart of more than 2^20 characters; the padding (length of the song name)
+        # moves every line break across every block boundary of a chunked reader
+        combos = [COMBOS[(i * 7) % 32] for i in range(30000)]
+        ticks = list(range(30000))
+        body = []
+        for t, c in zip(ticks, combos):
+            body += note_lines(t, c)
+        expected = [[t, lanes_vector(c)] for t, c in zip(ticks, combos)]
+        for pad in range(shard[1], shard[1] + 2):
+            text = mk(song_extra=['Name = "%s"' % ("x" * (pad + 1))], tracks={"ExpertSingle": body})
+            got = e1.run_probe(probe, text)
+            ctx.case(("big", pad), sample=dict(characters=len(text), ticks=30000, pad=pad))
+            ctx.evaluations += 1
+            if got != expected:
+                k = next((i for i in range(min(len(got), len(expected))) if got[i] != expected[i]), None) if isinstance(got, list) and got[:1] != ["raises"] else None
+                e1.report(ctx, "note-events-big", text, PROBE_SRC, [["<30000 events as written>"]], got if not isinstance(got, list) or len(got) < 5 else ["...", got[max(0, (k or 0) - 1) : (k or 0) + 2]], "chart of %d characters (padding %d): note events differ from the lines written (first difference at event %r, %d events instead of 30000)" % (len(text), pad, k, len(got) if isinstance(got, list) else -1))
+        return
     if kind == "long":
         _, gap, inter = shard
         for reps, order in ((1, "asc"), (2, "desc"), (5, "rot")) + (((40, "asc"),) if (gap, inter) == (1, "none") else ()):
